@@ -768,6 +768,10 @@ def py_eq(a, b, heap=None):
         if isinstance(b, SOpt):
             return zor(zand(a.none, b.none), zand(znot(a.none), znot(b.none), zbool(py_eq(a.v, b.v, heap))))
         return zand(znot(a.none), zbool(py_eq(a.v, b, heap)))
+    if hasattr(a, "eq_term") and not isinstance(a, (str, Tmpl)):
+        return a.eq_term(b)
+    if hasattr(b, "eq_term") and not isinstance(b, (str, Tmpl)):
+        return b.eq_term(a)
     if isinstance(a, (str, Tmpl)) and isinstance(b, (str, Tmpl)):
         if a == b:
             return True
